@@ -499,10 +499,17 @@ func (vc *VC) binop(fr *Frame, st *State, t *ssa.BinOp) Term {
 				return App(SInt, "div", x, y)
 			}
 			r := App(SInt, "mod", x, y)
+			if _, isC := isConstInt(t.Y); !isC {
+				vc.q.Assert(modFacts(x, y))
+			}
 			return r
 		}
 		if t.Op == token.QUO {
 			return wrap(App(SInt, "tdiv", x, y), false)
+		}
+		if _, isC := isConstInt(t.Y); !isC {
+			vc.q.Assert(modFacts(x, y))
+			vc.q.Assert(Implies(And(Le(IntLit(0), x), Lt(IntLit(0), y)), Eq(App(SInt, "tmod", x, y), App(SInt, "mod", x, y))))
 		}
 		return App(SInt, "tmod", x, y)
 	case token.SHL:
